@@ -10,6 +10,7 @@ import (
 	"fmt"
 	"io"
 	"os"
+	"os/exec"
 	"path/filepath"
 	"strings"
 	"verifharness/internal/rng"
@@ -397,7 +398,8 @@ func isolationCase(r *rng.R, dir string) string {
 	starts, results := isolationRun(spec, model, prexec, trap, dir, cases)
 	eq := []string{}
 	for i, dc := range cases {
-		soloStart, soloRes := isolationRun(spec, model, prexec, trap, dir, []dirtyCase{dc})
+		// the same case ALONE, in a fresh process: nothing at all can have been left over by anything
+		soloStart, soloRes := soloInChild(spec, model, prexec, trap, dc.name)
 		s := "1"
 		if i >= len(starts) || len(soloStart) != 1 || starts[i] != soloStart[0] {
 			s = "0"
@@ -421,6 +423,44 @@ func isolationCase(r *rng.R, dir string) string {
 		tr = 1
 	}
 	return fmt.Sprintf("isolation %s.%s %d %d %s => %s", spec, model, pe, tr, strings.Join(names, ","), strings.Join(eq, ","))
+}
+
+// soloInChild runs one case of the pool alone in a child process of this binary (cached: the result is a function of
+// the arguments) and returns its start observation and its result
+var soloCache = map[string][2]string{}
+
+func soloInChild(spec, model string, prexec, trap bool, name string) ([]string, []string) {
+	key := fmt.Sprintf("%s %s %v %v %s", spec, model, prexec, trap, name)
+	if v, ok := soloCache[key]; ok {
+		return []string{v[0]}, []string{v[1]}
+	}
+	cmd := exec.Command(os.Args[0], "isochild", spec, model, fmt.Sprint(prexec), fmt.Sprint(trap), name)
+	outb, err := cmd.Output()
+	parts := strings.Split(string(outb), "\x1e")
+	if err != nil || len(parts) != 3 {
+		return nil, nil
+	}
+	soloCache[key] = [2]string{parts[0], parts[1]}
+	return []string{parts[0]}, []string{parts[1]}
+}
+
+// isoChild: `corr isochild <spec> <model> <prexec> <trap> <case name>`
+func isoChild(args []string) {
+	spec, model, prexec, trap, name := args[0], args[1], args[2] == "true", args[3] == "true", args[4]
+	dir, err := os.MkdirTemp("", "verif-iso")
+	if err != nil {
+		os.Exit(3)
+	}
+	defer os.RemoveAll(dir)
+	for _, dc := range dirtyPool(spec, trap) {
+		if dc.name == name {
+			starts, results := isolationRun(spec, model, prexec, trap, dir, []dirtyCase{dc})
+			if len(starts) == 1 && len(results) == 1 {
+				fmt.Printf("%s\x1e%s\x1eend", starts[0], results[0])
+			}
+			return
+		}
+	}
 }
 
 func isolationStream(seed uint64, n int) {
